@@ -9,10 +9,24 @@ Import ListNotations.
 Local Open Scope nat_scope.
 
 (* ------------------------------------------------------------------ vmap: the shared batch rule *)
-(* full-strength statement  batcher_correct_for bt :=
+(* statement  batcher_correct_for bt :=
      forall prim op x dx y dy, elementwise prim op -> batch_ok x dx y dy ->
        exists r od, bt prim x dx y dy = Some (r, od) /\ teq (front od r) (vmap_spec (tmap2b op) x dx y dy)
-   FALSE of the unchanged tree (_handle_scalar_broadcasting appends the new axes at the end): *)
+
+   THE CURRENT CODE (commit c32db30: new axes right after the batch axis) = Batch.batcher_fixed:
+   true for ALL shapes, ranks and batch dims *)
+Theorem C10_batcher_fixed_correct : forall A B C : Type, batcher_correct_for (@batcher_fixed A B C).
+Proof. exact @batcher_fixed_correct. Qed.
+Print Assumptions C10_batcher_fixed_correct.
+
+(* ... and the current source IS that helper (AST of _handle_scalar_broadcasting / broadcast_batcher_compat, gen/GenAutodiff.v) *)
+Theorem C10_current_batch_helper_is_repaired :
+  hsb_source_variant = "after_batch"%string /\ batcher_shape_checked = true.
+Proof. exact current_batch_helper_is_repaired. Qed.
+Print Assumptions C10_current_batch_helper_is_repaired.
+
+(* HISTORY (before c32db30): _handle_scalar_broadcasting appended the new axes at the END = Batch.batcher.
+   The statement was FALSE of it: *)
 Theorem C10_batcher_correct_refuted :
   exists (op : Z -> Z -> Z) x dx y dy, batch_ok x dx y dy /\
     exists r od, batcher (tmap2b op) x dx y dy = Some (r, od) /\
@@ -24,18 +38,12 @@ Theorem C10_batcher_not_correct : ~ batcher_correct_for (@batcher Z Z Z).
 Proof. exact batcher_not_correct. Qed.
 Print Assumptions C10_batcher_not_correct.
 
-(* true of the unchanged tree exactly on: every BATCHED operand has the full per-example rank or a per-example
-   shape of ones *)
+(* and true of it exactly on: every BATCHED operand has the full per-example rank or a per-example shape of ones *)
 Theorem C10_batcher_correct_partial : forall (A B C : Type) (prim : tensor A -> tensor B -> tensor C) op x dx y dy,
   elementwise prim op -> batch_ok x dx y dy -> ranks_uniform_or_unit x dx y dy ->
   exists r od, batcher prim x dx y dy = Some (r, od) /\ teq (front od r) (vmap_spec (tmap2b op) x dx y dy).
 Proof. exact @batcher_correct_partial. Qed.
 Print Assumptions C10_batcher_correct_partial.
-
-(* true for ALL shapes, ranks and batch dims once the new axes are inserted right after the batch axis *)
-Theorem C10_batcher_fixed_correct : forall A B C : Type, batcher_correct_for (@batcher_fixed A B C).
-Proof. exact @batcher_fixed_correct. Qed.
-Print Assumptions C10_batcher_fixed_correct.
 
 (* the hypothesis `elementwise` cannot be dropped: jnp.dot / jnp.matmul register the same rule *)
 Theorem C10_batcher_nonelementwise_refuted :
